@@ -3,6 +3,7 @@ import Spec
 import Gen
 import Proofs.RoundTrip
 import Proofs.Header
+import Proofs.WireRT
 /-!
   C01 — messages survive a wire round trip in both directions.
   API direction: proved at full strength (`C01_api_*`), for every dictionary, every header,
@@ -142,6 +143,108 @@ theorem C01_wire_counterexample_other16 : ¬ C01_wire_Statement :=
 theorem C01_wire_counterexample_other4 : ¬ C01_wire_Statement :=
   refute witOther4 [.mk 257 64 12 0 (.addr [0,8,49,50])] (by decide) (by decide) (by decide)
 
+/-! ### wire direction, proved part -/
+
+/-- `C01_wire_Statement` restricted to bodies free of the three ambiguous Address shapes
+    (`wfBodyX`): for every dictionary typing and every such well-formed body, of any size and
+    nesting, what is read serialises to exactly the bytes that were read. Together with the three
+    counterexamples this determines the wire direction completely: the statement holds exactly
+    outside those shapes. -/
+theorem C01_wire_partial (ty : Nat → Nat → Nat) (bs : Bytes) (as : List AVP)
+    (hw : wfBodyX ty bs = true) (hd : decodeAVPs ty (bs.length + 1) bs = .ok as) : encL as = bs := by
+  unfold wfBodyX at hw
+  dsimp only at hw
+  have hfe := (frame_equiv ty (bs.length + 1)).2 bs
+  rw [hd] at hfe
+  change _ = ((frames (isG ty) (bs.length + 1) bs).bindR (typedL ty)).toOpt at hfe
+  cases hf : frames (isG ty) (bs.length + 1) bs with
+  | ok fs =>
+    change (match frames (isG ty) (bs.length + 1) bs with
+      | .ok fs => wfFramesX ty fs && wfPadding (isG ty) (bs.length + 1) bs
+      | _ => false) = true at hw
+    rw [hf] at hw hfe
+    simp only [Bool.and_eq_true] at hw
+    have ht : typedL ty fs = .ok as := toOpt_some _ _ hfe.symm
+    exact ((wire_rt ty (bs.length + 1)).2 (bs.length + 1) bs fs as hf hw.2 ht hw.1).1
+  | err e =>
+    change (match frames (isG ty) (bs.length + 1) bs with
+      | .ok fs => wfFramesX ty fs && wfPadding (isG ty) (bs.length + 1) bs
+      | _ => false) = true at hw
+    rw [hf] at hw; cases hw
+  | panic e =>
+    change (match frames (isG ty) (bs.length + 1) bs with
+      | .ok fs => wfFramesX ty fs && wfPadding (isG ty) (bs.length + 1) bs
+      | _ => false) = true at hw
+    rw [hf] at hw; cases hw
+
+/-- ... and every well-formed body (ambiguous Address shapes included) is read without error. -/
+theorem C01_wire_reads (ty : Nat → Nat → Nat) (bs : Bytes) (hw : wfBody ty bs = true) :
+    ∃ as, decodeAVPs ty (bs.length + 1) bs = .ok as := by
+  unfold wfBody at hw
+  have hfe := (frame_equiv ty (bs.length + 1)).2 bs
+  change (match frames (isG ty) (bs.length + 1) bs with
+      | .ok fs => wfFrames ty fs && wfPadding (isG ty) (bs.length + 1) bs
+      | _ => false) = true at hw
+  cases hf : frames (isG ty) (bs.length + 1) bs with
+  | ok fs =>
+    rw [hf] at hw hfe
+    simp only [Bool.and_eq_true] at hw
+    obtain ⟨as, has⟩ := typedL_total ty fs hw.1
+    refine ⟨as, toOpt_some _ _ ?_⟩
+    rw [hfe]; simp only [Res.bindR, has]; rfl
+  | err e => rw [hf] at hw; cases hw
+  | panic e => rw [hf] at hw; cases hw
+
+theorem wfBodyX_wfBody (ty : Nat → Nat → Nat) (bs : Bytes) (h : wfBodyX ty bs = true) : wfBody ty bs = true := by
+  unfold wfBodyX at h
+  unfold wfBody
+  dsimp only at h ⊢
+  cases hf : frames (fun c v => decide (ty c v = T.grouped)) (bs.length + 1) bs with
+  | ok fs =>
+    rw [hf] at h
+    simp only [Bool.and_eq_true] at h ⊢
+    exact ⟨wfFramesX_wfFrames ty fs h.1, h.2⟩
+  | err e => rw [hf] at h; cases h
+  | panic e => rw [hf] at h; cases h
+
+/-- Message level (`ReadMessage` then `Serialize`): a well-formed wire message without those
+    shapes is read, and serialising the result reproduces the message byte for byte. -/
+theorem C01_wire_msg (d : DictFn) (bs : Bytes) (hw : wfWireX d bs = true) :
+    ∃ m, decodeMsg d bs = .ok m ∧ m.enc = bs := by
+  unfold wfWireX at hw
+  by_cases h20 : bs.length < 20
+  · simp [h20] at hw
+  simp only [h20, if_false] at hw
+  have htl : (bs.take 20).length = 20 := by rw [List.length_take]; omega
+  cases hh : decodeHeader (bs.take 20) with
+  | err e => rw [hh] at hw; cases hw
+  | panic e => rw [hh] at hw; cases hw
+  | ok h =>
+    rw [hh] at hw
+    simp only [Bool.and_eq_true, decide_eq_true_eq] at hw
+    obtain ⟨⟨hlen, hcmd⟩, hbody⟩ := hw
+    have himg := header_image (bs.take 20) htl h hh
+    unfold cmdHasRules at hcmd
+    cases hc : d.cmdRules h.app h.cmd with
+    | none => rw [hc] at hcmd; cases hcmd
+    | some nr =>
+      obtain ⟨nreq, nans⟩ := nr
+      rw [hc] at hcmd
+      simp only [bne_iff_ne, ne_eq] at hcmd
+      obtain ⟨as, has⟩ := C01_wire_reads _ _ (wfBodyX_wfBody _ _ hbody)
+      have henc := C01_wire_partial _ _ as hbody has
+      have hbd : (bs.drop 20).take (h.len - 20) = bs.drop 20 := by
+        apply List.take_of_length_le; rw [List.length_drop]; omega
+      refine ⟨{ hdr := h, avps := as }, ?_, ?_⟩
+      · unfold decodeMsg
+        simp only [h20, if_false, hh, hc]
+        have h1 : ¬ h.len < 20 := by omega
+        simp only [h1, if_false, hbd]
+        have h2 : ¬ (bs.drop 20).length < h.len - 20 := by rw [List.length_drop]; omega
+        simp only [h2, if_false, hcmd, has]
+      · show h.enc ++ encL as = bs
+        rw [himg, henc, List.take_append_drop]
+
 /-- regenerated facts the codec model hard-codes -/
 theorem C01_gen : Gen.HeaderLength = 20 ∧ Gen.Vbit = 128 ∧ Gen.rfc868offset = rfc868 ∧
     Gen.rfc2030offset = rfc2030 ∧ Gen.typeIds.map (·.2) = List.range 19 ∧
@@ -163,5 +266,11 @@ def demoTree : List AVP :=
    .mk 7 32 0 0 (.fix 5 2143289344)]
 
 example : canonL demoTree = true ∧ typedOkL demoTy demoTree = true ∧ lenL demoTree < 16777216 := by decide
+
+/-- non-vacuity of `C01_wire_partial`: the wire image of that tree (a group in a group, an empty
+    group, an odd-length string with padding, a vendor-specific unknown AVP, an E.164 address,
+    both time eras, IPv6, a float) is well formed, free of the ambiguous shapes, and is read. -/
+example : wfBodyX demoTy (encL demoTree) = true ∧
+    (decodeAVPs demoTy ((encL demoTree).length + 1) (encL demoTree)).isOk = true := by decide +kernel
 
 end DV.Props.C01
